@@ -279,7 +279,9 @@ def model_batch(objs: list[dict]) -> list[Any]:
     cmd = [str(exe)] if exe.exists() else ["lake", "env", "lean", "--run", "Driver.lean"]
     data = "".join(json.dumps(o, ensure_ascii=True) + "\n" for o in objs)
     p = subprocess.run(cmd, cwd=LEAN, input=data, stdout=subprocess.PIPE, text=True)
-    lines = p.stdout.splitlines()
+    lines = p.stdout.split("\n")   # not splitlines(): the model's answers may contain U+2028 / form feeds
+    if lines and lines[-1] == "":
+        lines.pop()
     if len(lines) != len(objs):
         raise RuntimeError(f"model driver returned {len(lines)} lines for {len(objs)} requests (rc={p.returncode})")
     return [json.loads(l) for l in lines]
